@@ -1,42 +1,55 @@
 #!/usr/bin/env python3
-"""seeded_run.py [ids...] [--props C01,C02] [--tier quick]
+"""seeded_run.py [ids...] [--props C01,C02] [--tier quick] [--scratch]
 Applies each seeded change to /repo (git apply), runs ./check for the targeted property (or the given ones),
-records the outcome in seeded/<id>/result.json and undoes the change (git checkout -- .)."""
+records the outcome in seeded/<id>/result.json and undoes the change (git checkout -- .).
+--scratch: do the same on a scratch worktree of /repo (/tmp/sr/repo) with a scratch copy of /verif
+(/tmp/sr/verif, VERIF_REPO override) so that /repo itself stays untouched (used while /repo is busy)."""
 import json, os, subprocess, sys, time
 VERIF=os.path.dirname(os.path.dirname(os.path.abspath(__file__)))
 args=sys.argv[1:]
-props=None; tier="quick"; ids=[]
+props=None; tier="quick"; ids=[]; scratch=False
 i=0
 while i<len(args):
     if args[i]=="--props": props=args[i+1].split(","); i+=2
     elif args[i]=="--tier": tier=args[i+1]; i+=2
+    elif args[i]=="--scratch": scratch=True; i+=1
     else: ids.append(args[i]); i+=1
 if not ids: ids=sorted(os.listdir(os.path.join(VERIF,"seeded")))
 def sh(cmd, **kw): return subprocess.run(cmd, shell=True, text=True, stdout=subprocess.PIPE, stderr=subprocess.STDOUT, **kw)
-st=sh("git -C /repo status --porcelain --untracked-files=no").stdout.strip()
+REPO="/repo"; RUNVERIF=VERIF; ENV=dict(os.environ)
+if scratch:
+    REPO="/tmp/sr/repo"; RUNVERIF="/tmp/sr/verif"
+    os.makedirs("/tmp/sr",exist_ok=True)
+    if not os.path.isdir(REPO):
+        print(sh("git -C /repo worktree add --detach %s HEAD"%REPO).stdout)
+        sh("cp /repo/Cargo.lock %s/"%REPO)
+    sh("git -C %s checkout -- . && git -C %s checkout --detach $(git -C /repo rev-parse HEAD)"%(REPO,REPO))
+    print(sh("rsync -a --delete --exclude 'target*' --exclude logs --exclude replays --exclude evidence --exclude .git %s/ %s/"%(VERIF,RUNVERIF)).stdout)
+    ENV["VERIF_REPO"]=REPO
+st=sh("git -C %s status --porcelain --untracked-files=no"%REPO).stdout.strip()
 if st:
-    print("refusing: /repo has local modifications:\n"+st); sys.exit(3)
+    print("refusing: %s has local modifications:\n"%REPO+st); sys.exit(3)
 for mid in ids:
     d=os.path.join(VERIF,"seeded",mid)
     meta=json.load(open(os.path.join(d,"meta.json")))
     targets=props or [meta["property"]]
-    r=sh("git -C /repo apply %s/patch.diff"%d)
+    r=sh("git -C %s apply %s/patch.diff"%(REPO,d))
     if r.returncode!=0:
         print(mid,"PATCH DOES NOT APPLY",r.stdout); continue
     out={}
     try:
         for p in targets:
             t0=time.time()
-            rr=sh("./check %s --tier %s"%(p,tier), cwd=VERIF, timeout=3600)
+            rr=sh("./check %s --tier %s"%(p,tier), cwd=RUNVERIF, timeout=3600, env=ENV)
             lines=[l for l in rr.stdout.splitlines() if l.startswith(("VIOLATION","WITNESS","INCONCLUSIVE","HARNESS-ERROR","BUILD-ERROR","OK ","KNOWN-FINDING"))]
             out[p]={"exit":rr.returncode,"wall_s":round(time.time()-t0,1),"lines":[l[:700] for l in lines[:6]]}
             print(mid,p,"exit",rr.returncode,"%.0fs"%(time.time()-t0), (lines[0][:300] if lines else rr.stdout[-300:]), flush=True)
     finally:
-        sh("git -C /repo checkout -- .")
+        sh("git -C %s checkout -- ."%REPO)
     resf=os.path.join(d,"result.json")
     old={}
     if os.path.exists(resf):
         try: old=json.load(open(resf))
         except Exception: old={}
-    old.setdefault(tier,{}).update(out)
+    old.setdefault(tier+("-scratch" if scratch else ""),{}).update(out)
     json.dump(old,open(resf,"w"),indent=1)
